@@ -253,6 +253,188 @@ Qed.
 (* step lemmas: one question, one notification *)
 
 (* ---------------------------------------------------------------------------------------- *)
+(* representation invariant: the lists really are Python sets / dicts / duplicate-free user lists *)
+
+Definition keys {A} (l : list (nat * A)) : list nat := map fst l.
+
+Definition wf_room (x : rrec) : Prop :=
+  NoDup (r_users x) /\ NoDup (r_members x) /\ NoDup (r_ops x) /\ NoDup (keys (r_tickers x)).
+
+Lemma mem_In : forall x l, mem x l = true <-> In x l.
+Proof.
+  intros x l. unfold mem. rewrite existsb_exists. split.
+  - intros [y [H1 H2]]. apply Nat.eqb_eq in H2. now subst.
+  - intros H. exists x. split; [assumption|apply Nat.eqb_refl].
+Qed.
+
+Lemma NoDup_snoc : forall (x : nat) l, NoDup l -> ~ In x l -> NoDup (l ++ [x]).
+Proof.
+  intros x l H Hx. induction H as [|a l Ha Hl IH]; cbn; [constructor; [intros []|constructor]|].
+  constructor.
+  - intro K. apply in_app_or in K. destruct K as [K|[K|[]]]; [contradiction|]. subst. apply Hx. now left.
+  - apply IH. intro K. apply Hx. now right.
+Qed.
+
+Lemma NoDup_sadd : forall x l, NoDup l -> NoDup (sadd x l).
+Proof.
+  intros x l H. unfold sadd. destruct (mem x l) eqn:E; [assumption|].
+  apply NoDup_snoc; [assumption|]. intro K. apply mem_In in K. congruence.
+Qed.
+
+Lemma NoDup_filter : forall A (f : A -> bool) l, NoDup l -> NoDup (filter f l).
+Proof.
+  intros A f l H. induction H as [|a l Ha Hl IH]; cbn; [constructor|].
+  destruct (f a); [constructor; [|assumption]|assumption].
+  intro K. apply filter_In in K. tauto.
+Qed.
+
+Lemma NoDup_sdiscard : forall x l, NoDup l -> NoDup (sdiscard x l).
+Proof. intros. unfold sdiscard. now apply NoDup_filter. Qed.
+
+Lemma NoDup_fold_sadd : forall l acc, NoDup acc -> NoDup (fold_left (fun a y => sadd y a) l acc).
+Proof. intros l. induction l; intros acc H; cbn [fold_left]; [assumption|]. apply IHl. now apply NoDup_sadd. Qed.
+
+Lemma NoDup_sof : forall l, NoDup (sof l).
+Proof. intros. unfold sof. apply NoDup_fold_sadd. constructor. Qed.
+
+Lemma keys_aset : forall A k (a : A) l, keys (aset k a l) = if mem k (keys l) then keys l else keys l ++ [k].
+Proof.
+  intros A k a l. unfold keys, mem. induction l as [|[k0 a0] l IH]; cbn; [reflexivity|].
+  destruct (Nat.eqb_spec k k0); cbn; [subst; reflexivity|]. rewrite IH.
+  destruct (existsb (Nat.eqb k) (map fst l)); reflexivity.
+Qed.
+
+Lemma NoDup_keys_aset : forall A k (a : A) l, NoDup (keys l) -> NoDup (keys (aset k a l)).
+Proof.
+  intros A k a l H. rewrite keys_aset. destruct (mem k (keys l)) eqn:E; [assumption|].
+  apply NoDup_snoc; [assumption|]. intro K. apply mem_In in K. congruence.
+Qed.
+
+Lemma keys_filter_sub : forall A (f : nat * A -> bool) l, NoDup (keys l) -> NoDup (keys (filter f l)).
+Proof.
+  intros A f l. induction l as [|[k a] l IH]; cbn; intros H; [constructor|].
+  inversion H as [|? ? Hk Hl]; subst. destruct (f (k, a)); cbn; [constructor; [|now apply IH]|now apply IH].
+  intro K. apply Hk. unfold keys in *. apply in_map_iff in K. destruct K as [[k' a'] [E K]]. cbn in E. subst.
+  apply filter_In in K. destruct K as [K _]. apply in_map_iff. now exists (k, a').
+Qed.
+
+Lemma NoDup_keys_adel : forall A k (l : list (nat * A)), NoDup (keys l) -> NoDup (keys (adel k l)).
+Proof. intros. unfold adel. now apply keys_filter_sub. Qed.
+
+Lemma NoDup_keys_fold_aset : forall A (l acc : list (nat * A)), NoDup (keys acc) ->
+  NoDup (keys (fold_left (fun a p => aset (fst p) (snd p) a) l acc)).
+Proof. intros A l. induction l; intros acc H; cbn [fold_left]; [assumption|]. apply IHl. now apply NoDup_keys_aset. Qed.
+
+Lemma NoDup_keys_aof : forall A (l : list (nat * A)), NoDup (keys (aof l)).
+Proof. intros. unfold aof. apply NoDup_keys_fold_aset. constructor. Qed.
+
+Lemma Forall_aset : forall A (P : nat * A -> Prop) k a l, Forall P l -> P (k, a) -> Forall P (aset k a l).
+Proof.
+  intros A P k a l H Hk. induction H as [|[k0 a0] l H0 Hl IH]; cbn; [repeat constructor; assumption|].
+  destruct (Nat.eqb k k0); constructor; assumption.
+Qed.
+
+Lemma aget_Forall : forall A (P : nat * A -> Prop) k l x, Forall P l -> aget k l = Some x -> P (k, x).
+Proof.
+  intros A P k l x H. induction H as [|[k0 a0] l H0 Hl IH]; cbn; [discriminate|].
+  destruct (Nat.eqb_spec k k0); [intros E; inversion E; subst; assumption|exact IH].
+Qed.
+
+Lemma keys_map_key : forall A B (g : nat * A -> B) (l : list (nat * A)), keys (map (fun p => (fst p, g p)) l) = keys l.
+Proof. intros. unfold keys. rewrite map_map. cbn [fst]. reflexivity. Qed.
+
+Definition wf_rooms (rs : list (room * rrec)) : Prop := NoDup (keys rs) /\ Forall (fun p => wf_room (snd p)) rs.
+
+Lemma wf_new_room : forall p, wf_room (new_room p).
+Proof. intros. unfold wf_room, new_room. cbn. repeat split; constructor. Qed.
+
+Lemma wf_room_obj : forall rs r p, wf_rooms rs -> wf_room (room_obj rs r p).
+Proof.
+  intros rs r p [_ H]. unfold room_obj. destruct (aget r rs) eqn:E; [|apply wf_new_room].
+  apply (aget_Forall _ (fun p => wf_room (snd p)) r rs r0 H E).
+Qed.
+
+Lemma wf_upd_rooms : forall r p f rs, (forall x, wf_room x -> wf_room (f x)) -> wf_rooms rs -> wf_rooms (upd_rooms r p f rs).
+Proof.
+  intros r p f rs Hf H. pose proof (wf_room_obj rs r p H) as Ho. destruct H as [H1 H2]. unfold upd_rooms. split.
+  - now apply NoDup_keys_aset.
+  - apply Forall_aset; [assumption|]. cbn. now apply Hf.
+Qed.
+
+Lemma wf_fold_upd : forall p f, (forall x, wf_room x -> wf_room (f x)) ->
+  forall l rs, wf_rooms rs -> wf_rooms (fold_left (fun rs r => upd_rooms r p f rs) l rs).
+Proof. intros p f Hf l. induction l; intros rs H; cbn [fold_left]; [assumption|]. apply IHl. now apply wf_upd_rooms. Qed.
+
+Ltac wfr := unfold wf_room in *; cbn [r_users r_members r_ops r_tickers set_private set_users set_joined set_tickers set_members set_owner set_ops] in *;
+  intuition (auto using NoDup_sadd, NoDup_sdiscard, NoDup_sof, NoDup_keys_aset, NoDup_keys_adel, NoDup_keys_aof, NoDup_nil).
+
+Lemma wf_users_upd : forall u f s, NoDup (keys (users s)) -> NoDup (keys (users (upd_user u f s))).
+Proof. intros. unfold upd_user. cbn [users]. now apply NoDup_keys_aset. Qed.
+
+Definition wf_state (s : state) : Prop := wf_rooms (rooms s) /\ NoDup (keys (users s)) /\ NoDup (privset s).
+
+Lemma wf_state_upd_room : forall r p f s, (forall x, wf_room x -> wf_room (f x)) -> wf_state s -> wf_state (upd_room r p f s).
+Proof. intros r p f s Hf (H1 & H2 & H3). unfold wf_state, upd_room. cbn [rooms users privset]. split; [now apply wf_upd_rooms|tauto]. Qed.
+
+Lemma wf_state_upd_user : forall u f s, wf_state s -> wf_state (upd_user u f s).
+Proof. intros u f s (H1 & H2 & H3). unfold wf_state. cbn [rooms privset]. split; [assumption|]. split; [now apply wf_users_upd|assumption]. Qed.
+
+Lemma wf_state_touch : forall u s, wf_state s -> wf_state (touch_user u s).
+Proof. intros. now apply wf_state_upd_user. Qed.
+
+Lemma wf_state_fold_touch : forall A (g : A -> name) l s, wf_state s -> wf_state (fold_left (fun s x => touch_user (g x) s) l s).
+Proof. intros A g l. induction l; intros s H; cbn [fold_left]; [assumption|]. apply IHl. now apply wf_state_touch. Qed.
+
+Lemma wf_fix_room : forall me pub owned priv operated r x, wf_room x -> wf_room (fix_room me pub owned priv operated r x).
+Proof.
+  intros. unfold fix_room.
+  destruct (negb (mem r owned)), (negb (mem r operated)), (negb (mem r priv)), (r_owner x) as [o|]; try destruct (Nat.eqb o me); wfr.
+Qed.
+
+Lemma wf_state_room_list : forall me pub owned priv operated s, wf_state s -> wf_state (on_room_list me pub owned priv operated s).
+Proof.
+  intros me pub owned priv operated s H. apply (wf_state_touch me) in H. destruct H as (H1 & H2 & H3).
+  unfold on_room_list, wf_state. cbn [rooms users privset]. split; [|tauto].
+  match goal with |- wf_rooms (map _ (filter _ ?rs4)) => assert (W : wf_rooms rs4) end.
+  { repeat apply wf_fold_upd; try assumption; intros; wfr. }
+  destruct W as [W1 W2]. split.
+  - rewrite (keys_map_key _ _ (fun p => fix_room me pub owned priv operated (fst p) (snd p))). now apply keys_filter_sub.
+  - apply Forall_map. cbn [snd]. apply Forall_forall. intros [k x] Hin. apply filter_In in Hin. destruct Hin as [Hin _].
+    apply wf_fix_room. rewrite Forall_forall in W2. apply (W2 (k, x) Hin).
+Qed.
+
+Lemma wf_state_fold_join : forall r (us : list (name * (Z * stats))) s, wf_state s ->
+  wf_state (fold_left (fun s p =>
+         let s' := upd_user (fst p) (set_status_stats (fst (snd p)) (snd (snd p))) s in
+         upd_room r false (fun x => set_users (sadd (fst p) (r_users x)) x) s') us s).
+Proof.
+  intros r us. induction us; intros s H; cbn [fold_left]; [assumption|]. apply IHus.
+  apply wf_state_upd_room; [intros; wfr|]. now apply wf_state_upd_user.
+Qed.
+
+Lemma wf_state_apply : forall me bl s m, wf_state s -> wf_state (fst (apply_msg me bl s m)).
+Proof.
+  intros me bl s m H. destruct m; cbn [apply_msg fst];
+  try match goal with |- context [blocked_room ?b ?x] => destruct (blocked_room b x) end;
+  try match goal with |- context [blocked_private ?b ?x] => destruct (blocked_private b x) end; cbn [fst]; try assumption;
+  try (apply wf_state_room_list; assumption);
+  repeat first [ apply wf_state_upd_room; [intros; wfr|] | apply wf_state_touch | apply wf_state_upd_user
+               | apply wf_state_fold_touch | apply (wf_state_fold_touch _ (@fst name text)) | apply wf_state_fold_join ]; try assumption.
+  all: try (unfold on_join_room; apply wf_state_upd_room; [intros; wfr|]; apply wf_state_fold_join; apply wf_state_upd_room; [intros; wfr|assumption]).
+  (* PrivUsers *)
+  destruct H as (H1 & H2 & H3). unfold wf_state. cbn [rooms users privset]. split; [assumption|]. split; [|apply NoDup_sof].
+  now rewrite (keys_map_key _ _ (fun p => mkU (u_status (snd p)) (u_stats (snd p)) (mem (fst p) l))).
+Qed.
+
+Lemma wf_state_fold : forall me bl ms s, wf_state s -> wf_state (fold me bl s ms).
+Proof. intros me bl ms. unfold fold. induction ms; intros s H; cbn [fold_left]; [assumption|]. apply IHms. now apply wf_state_apply. Qed.
+
+Lemma wf_state_init : forall me, wf_state (init_state me).
+Proof.
+  intros. unfold wf_state, wf_rooms, init_state. cbn. repeat split; try constructor; try (intros []); constructor.
+Qed.
+
+(* ---------------------------------------------------------------------------------------- *)
 (* users: one notification *)
 
 Lemma user_obj_room_list : forall me pub owned priv operated s u,
@@ -558,3 +740,4 @@ Section Repaired.
     - apply (fold_repaired_replay _ (fun s => q_privileged s u)). intros. rewrite rep_privileged. apply privileged_step_ok.
   Qed.
 End Repaired.
+
